@@ -243,6 +243,7 @@ pub fn case_from_json(v: &Value) -> Case {
             let mode = match x["mode"].as_str().unwrap() {
                 "Read" => Mode::Read,
                 "Write" => Mode::Write,
+                "WriteAll" => Mode::WriteAll,
                 _ => Mode::Both,
             };
             let k = &x["kind"];
@@ -280,7 +281,7 @@ pub fn case_from_json(v: &Value) -> Case {
     }
 }
 
-const MODES: [Mode; 3] = [Mode::Read, Mode::Write, Mode::Both];
+const MODES: [Mode; 4] = [Mode::Read, Mode::Write, Mode::Both, Mode::WriteAll];
 
 #[derive(Clone, Debug)]
 enum Chunk {
@@ -381,10 +382,11 @@ impl Check for C04 {
                     }
                     // every split: one slot small, one large; mode and spelling rotate so that each split sees all of them over the family
                     for (j, slot) in [U::from_u64(5), U::pow2(200)].into_iter().enumerate() {
+                        let all_modes = [Mode::Read, Mode::Write, Mode::Both, Mode::WriteAll];
                         let (modes, spellings): (Vec<Mode>, Vec<usize>) = if n <= 3 {
-                            (MODES.to_vec(), (0..SPELLINGS.len()).collect())
+                            (all_modes.to_vec(), (0..SPELLINGS.len()).collect())
                         } else {
-                            (vec![MODES[(i + j) % 3]], vec![(i + j) % SPELLINGS.len()])
+                            (vec![all_modes[(i + j) % 4]], vec![(i + j) % SPELLINGS.len()])
                         };
                         for mode in &modes {
                             for sp in &spellings {
@@ -455,7 +457,7 @@ impl Check for C04 {
                     for (s1, s2, s3) in [(0usize, 1usize, 2usize), (5, 2, 0), (3, 4, 1), (2, 5, 3)] {
                         for (mi, m1) in MODES.iter().enumerate() {
                             for m2 in MODES {
-                                let m3 = MODES[(mi + 1) % 3];
+                                let m3 = MODES[(mi + 1) % MODES.len()];
                                 let sp = (a + b + c + mi) % SPELLINGS.len();
                                 run(
                                     ctx,
@@ -499,7 +501,8 @@ impl Check for C04 {
             "ground-truth layouts -> solc-idiom bytecode (templates transcribed from the shipped solc output): every single variable of \
              kind word / 160-bit-masked word / dynamic array / mapping of depth 1-4 over all key-kind vectors {{address, word}}^depth with \
              plain or 160-bit-masked value, at 6 slots (0, 1, 5, 77, 2^64+3, 2^200) x 3 access modes (read, write, both; each access \
-             in its own dispatcher branch) x 4 spellings (mul/shl packing, shr/div unpacking, mask on either side of AND, hash on \
+             in its own dispatcher branch; packed words additionally with one store that writes all fields at once, ORs \
+             associated either way) x 4 spellings (mul/shl packing, shr/div unpacking, mask on either side of AND, hash on \
              either side of ADD); all {} splits of a 32-byte word into 2..{} fields at byte boundaries as packed variables; all ordered \
              pairs{} of 7 representative kinds at all ordered slot pairs x 9 mode pairs x 4 spellings. Oracle: an entry at exactly the \
              slot whose kind matches (mapping nested to the right depth, dynamic array, packed fields at the right bit offsets with \
